@@ -20,8 +20,8 @@ Abstract values (JSON-able through lib.jsonable, and directly convertible to Coq
     integer field -> int          octet field -> bytes        name -> list of labels (bytes);
     absolute iff the last label is b""       repeated rows -> list of rows (each a list)
     ipv4/ipv6/hex64 parameters are carried as their 4/16/8 octets.
-Hand types: HIP [hit, alg, key, [name...]]; IPSECKEY [prec, gwtype, alg, gw, key] with gw None |
-    4 octets | 16 octets | name; AMTRELAY [prec, D, type, relay]; APL [[family, neg, addr, prefix]...];
+Hand types: HIP [hit, alg, key, [[name]...]]; IPSECKEY [prec, gwtype, alg, gw, key] with gw None |
+    4 octets | 16 octets | name; AMTRELAY [prec, D, type, relay]; APL [[[family, neg, addr, prefix]...]];
     GPOS [lat, lon, alt] (ASCII); LOC [[d,m,s,ms,sign],[d,m,s,ms,sign], alt_cm, size_cm, hp_cm, vp_cm];
     OPT [[otype, payload]...]; SVCB/HTTPS [priority, target, [[key, payload-spec]...]].
 """
@@ -335,15 +335,15 @@ def g_hip(rng, names, origin, profile):
     hit = gen_bytes(rng, gen_len(rng, 0, 255, profile))
     key = gen_bytes(rng, gen_len(rng, 0, 65535, profile))
     n = 0 if profile in ("min", "zero") else rng.choice([0, 1, 2, 4])
-    return [hit, gen_uint(rng, 1, 255, profile), key, [gen_name(rng, names, origin) for _ in range(n)]]
+    return [hit, gen_uint(rng, 1, 255, profile), key, [[gen_name(rng, names, origin)] for _ in range(n)]]
 
 
 def m_hip(cls, rdclass, rdtype, v):
-    return cls(rdclass, rdtype, bytes(v[0]), v[1], bytes(v[2]), [name_obj(n) for n in v[3]])
+    return cls(rdclass, rdtype, bytes(v[0]), v[1], bytes(v[2]), [name_obj(r[0]) for r in v[3]])
 
 
 def v_hip(rd):
-    return [bytes(rd.hit), int(rd.algorithm), bytes(rd.key), [labels_of(s) for s in rd.servers]]
+    return [bytes(rd.hit), int(rd.algorithm), bytes(rd.key), [[labels_of(s)] for s in rd.servers]]
 
 
 def g_gateway(rng, gtype, names, origin):
@@ -425,14 +425,14 @@ def g_apl(rng, names, origin, profile):
             addr = gen_bytes(rng, rng.choice([0, 1, 5, 63]))  # stored as hex text of at most 127 characters
             prefix = rng.randrange(256)
         items.append([fam, neg, addr, prefix])
-    return items
+    return [items]
 
 
 def m_apl(cls, rdclass, rdtype, v):
     import dns.rdtypes.IN.APL as APL
 
     items = []
-    for fam, neg, addr, prefix in v:
+    for fam, neg, addr, prefix in v[0]:
         if fam == 1:
             a = socket.inet_ntop(socket.AF_INET, bytes(addr))
         elif fam == 2:
@@ -453,7 +453,7 @@ def v_apl(rd):
         else:
             a = bytes.fromhex(bytes(it.address).decode())
         out.append([int(it.family), int(it.negation), a, int(it.prefix)])
-    return out
+    return [out]
 
 
 def g_float_text(rng, lim):
@@ -641,7 +641,7 @@ def names_in(t, values):
         return out
     h = t["hand"]
     if h == "hip":
-        return list(values[3])
+        return [r[0] for r in values[3]]
     if h == "ipseckey":
         return [values[3]] if values[1] == 3 else []
     if h == "amtrelay":
@@ -756,8 +756,8 @@ def corners(t):
 
 def _c_hip():
     n1, n2 = [b"rvs", b"example", b""], [b""]
-    return [[b"", 0, b"", []], [b"\xff" * 255, 255, b"\x00" * 300, [n1]], [b"\x01", 2, b"k", [n1, n2, [b"rel"]]],
-            [b"h" * 16, 1, b"\xff" * 256, []], [b"", 128, b"\x80", [n2]], [b"\x00", 1, b"", [[b"a" * 63, b""]]]]
+    return [[b"", 0, b"", []], [b"\xff" * 255, 255, b"\x00" * 300, [[n1]]], [b"\x01", 2, b"k", [[n1], [n2], [[b"rel"]]]],
+            [b"h" * 16, 1, b"\xff" * 256, []], [b"", 128, b"\x80", [[n2]]], [b"\x00", 1, b"", [[[b"a" * 63, b""]]]]]
 
 
 def _c_gw_types():
@@ -801,7 +801,7 @@ def _c_apl():
     out = [[]] + [[it] for it in items]
     out.append(items[:12])
     out.append(items[-6:] + items[:3])
-    return out
+    return [[o] for o in out]
 
 
 def _c_gpos():
